@@ -1314,6 +1314,27 @@ def oracle(ctx, kind, case, out):
             for kname, (h, n) in RFC_ALGS.items():
                 if sizes.get(kname) != n:
                     fail("mac_sizes differs from RFC 8945 for " + kname.decode())
+    elif op == 3:
+        # RFC 8945 4.2: Algorithm Name, Time Signed (48), Fudge, MAC Size, MAC, Original ID, Error, Other Len, Other Data
+        if not isinstance(out, Err):
+            f = case[1]
+            if out != tsig_rdata_wire(f[0], f[1], f[2], f[3], f[4], f[5], f[6]):
+                fail("TSIG rdata wire form differs from RFC 8945 4.2", sig="rdata-wire")
+    elif op == 4:
+        _, w, start, ln = case
+        try:
+            want = walk_tsig_rdata(w, start, ln) if start + ln <= len(w) else None
+        except Malformed:
+            want = None
+        if want is not None and want["error"] > 4095:
+            want = None   # the library's rcode type stops at 4095
+        if isinstance(out, Err):
+            if want is not None:
+                fail("well-formed TSIG rdata refused: " + out.text, sig="rdata-parse")
+        else:
+            got = dict(alg=out[0], time=out[1], fudge=out[2], mac=out[3], oid=out[4], error=out[5], other=out[6])
+            if want is None or got != want:
+                fail("TSIG rdata parsed differently from RFC 8945 4.2", sig="rdata-parse", want=str(want))
     elif op == 1:
         _, wire, k, rd, time, rmac, cx, multi, _ = case
         if isinstance(out, Err):
